@@ -67,9 +67,19 @@ type rpcState struct {
 	BodyTotal    int
 	CutAt        int // offset at which the request body was cut (-1 none)
 	CutKind      string
+	orig         origRequest
 	respLen      int      // length of the body the backend rendered (for fault enumeration)
 	respComp     string   // compression the backend used
 	respPayloads [][]byte // wire payloads of the backend's data frames
+}
+
+// origRequest is a snapshot of the request as the client sent it (the transcoder mutates the live one).
+type origRequest struct {
+	Method, Path, RawPath, RawQuery, Proto, Host, RequestURI string
+	ProtoMajor       int
+	Header           http.Header
+	ContentLength    int64
+	TransferEncoding []string
 }
 
 type RunResult struct {
@@ -461,6 +471,8 @@ func prepareRPC(st *rpcState, cfg *ConfigPlan) {
 	}
 	req.RemoteAddr = "192.0.2.1:1234"
 	st.req = req
+	st.orig = origRequest{Method: req.Method, Path: req.URL.Path, RawPath: req.URL.RawPath, RawQuery: req.URL.RawQuery, Proto: req.Proto, ProtoMajor: req.ProtoMajor,
+		Header: req.Header.Clone(), ContentLength: req.ContentLength, Host: req.Host, RequestURI: req.RequestURI, TransferEncoding: append([]string(nil), req.TransferEncoding...)}
 	st.rw = newSimRW(st.world, st.name+".rw")
 	st.rw.served = &st.served
 	if cp.WriterFailAfter > 0 {
